@@ -141,6 +141,34 @@ func (t *Term) String() string {
 	return s
 }
 
+// Brief prints at most about limit characters of the term. Unlike String it never materialises the whole text:
+// merged values are DAGs whose tree print is exponential in the number of joins (a C10 job grew to 48 GB in String).
+func (t *Term) Brief(limit int) string {
+	var sb strings.Builder
+	var rec func(x *Term)
+	rec = func(x *Term) {
+		if sb.Len() > limit {
+			return
+		}
+		if x.Op == "const" || x.Op == "var" || x.str != "" {
+			sb.WriteString(x.String())
+			return
+		}
+		sb.WriteByte('(')
+		sb.WriteString(strings.TrimPrefix(x.Op, "uf:"))
+		for _, a := range x.Args {
+			sb.WriteByte(' ')
+			rec(a)
+			if sb.Len() > limit {
+				break
+			}
+		}
+		sb.WriteByte(')')
+	}
+	rec(t)
+	return truncate(sb.String(), limit)
+}
+
 func (t *Term) Vars() map[string]struct{} {
 	if t.vars != nil {
 		return t.vars
